@@ -11,13 +11,18 @@
    whole / constant 1,2,3,7,8,9 / random schedules):
      * bit_reader_schedule_independent: for EVERY byte string, EVERY pair of schedules and EVERY script of reader operations the
        delivered values, the outcome and the observable final state (bits buffered, bytes left, buffered bits) are equal;
-     * both refill paths reach the same state (bit_reader_refill_paths_agree).
+     * both refill paths reach the same state (bit_reader_refill_paths_agree);
+     * symbol_decoding_schedule_independent: the same for scripts that also decode prefix-code symbols (read_symbol / peek_symbol
+       on any tree the decoder can build), provided every bare symbol read happens with >= 15 bits buffered or at the end of the
+       data -- which `fill(); read_symbol()` (SSym, what every call site of the decoder does; F4 repaired) guarantees by itself.
    Propagation of injected faults through every
    `?` of the decoder and encoder is decided on the implementation by the harness (c10: every schedule class, a fault at
    every I/O call index). *)
 From Coq Require Import ZArith List Arith.
 From WebP Require Import Lib.IO.
-From WebP Require Lib.ZBits Lib.Res Model.BitReader Proofs.Lossless_BitReader.
+From WebP Require Spec.Container Model.Container Model.ContainerIO Proofs.ContainerIO_prims Proofs.ContainerIO_refine
+  Proofs.ContainerIO_main Proofs.ContainerIO_examples Proofs.ContainerIO_sink Model.Encoder.
+From WebP Require Lib.ZBits Lib.Res Model.BitReader Model.Huffman Proofs.Lossless_BitReader Proofs.Lossless_SymSchedule.
 Import ListNotations.
 
 Theorem read_exact_any_schedule : forall s1 s2 r want, want <= length (remaining r) ->
@@ -48,7 +53,7 @@ Proof. repeat split; reflexivity. Qed.
 
 (* ---------------- lossless.rs BitReader under fill_buf schedules ---------------- *)
 Module BR.
-  Import Lib.ZBits Lib.Res Model.BitReader Proofs.Lossless_BitReader.
+  Import Lib.ZBits Lib.Res Model.BitReader Model.Huffman Proofs.Lossless_BitReader Proofs.Lossless_SymSchedule.
   Local Open Scope Z_scope.
 
   Theorem bit_reader_schedule_independent : forall (d s1 s2 : list Z) (ops : list brop),
@@ -61,9 +66,102 @@ Module BR.
     /\ R s r1' /\ R s r2'.
   Proof. exact fill_paths_agree. Qed.
 
+  Theorem symbol_decoding_schedule_independent : forall d s1 s2 ops, Forall byte d -> Forall sop_ok ops ->
+    fst (fst (srun d s1 ops)) = true -> srun d s1 ops = srun d s2 ops.
+  Proof. exact sym_schedule_independent. Qed.
+
+  Theorem fill_then_symbol_schedule_independent : forall d s1 s2 ops, Forall byte d -> Forall sop_ok ops ->
+    forallb always_disc ops = true -> srun d s1 ops = srun d s2 ops.
+  Proof. exact fill_sym_schedule_independent. Qed.
+
   (* the crate's own unit test of the reader, through three different schedules *)
   Example bit_reader_example :
     run [156; 65; 225] [] [OReadBits 8 3; OReadBits 8 2; OReadBits 8 6; OReadBits 16 10; OReadBits 8 3] = ([4; 3; 12; 40; 7], Ok (0, [], 0))
     /\ run [156; 65; 225] [1; 1; 1] [OReadBits 8 3; OReadBits 8 2; OReadBits 8 6; OReadBits 16 10; OReadBits 8 3] = ([4; 3; 12; 40; 7], Ok (0, [], 0)).
   Proof. split; vm_compute; reflexivity. Qed.
 End BR.
+
+(* ---------------- container layer (WebPDecoder::new, metadata getters) over an abstract BufRead + Seek reader ---------------- *)
+(* Model/ContainerIO.v restates Model/Container.v over a reader state {data, position, I/O call counter, schedule, index and kind of
+   one injected failure}; every primitive counts calls as std does (read_exact = default loop over read, stream_position = a seek, ...).
+   Tied to decoder.rs on every run by the c10io correspondence (outcome, chunk table, metadata, and the NUMBER of I/O calls, for
+   every fault index under the whole-buffer schedule and samples under seven others). *)
+Module CIO.
+  Import Lib.Res Spec.Container Model.Container Model.ContainerIO
+    Proofs.ContainerIO_prims Proofs.ContainerIO_refine Proofs.ContainerIO_main Proofs.ContainerIO_examples.
+  Local Open Scope Z_scope.
+
+  (* no fault armed: for every schedule the I/O-level `new` is the pure-cursor `new` of C03 / C08 *)
+  Theorem container_io_refines_pure : forall (sched : Z -> Z) (d : list Z),
+    all_bytes d = true -> MC.len d <= isize_max ->
+    erase (fst (ContainerIO.new (init sched None d))) = MC.new d.
+  Proof. exact io_refines_pure. Qed.
+
+  Theorem container_schedule_independent : forall (s1 s2 : Z -> Z) (d : list Z),
+    fst (ContainerIO.new (init s1 None d)) = fst (ContainerIO.new (init s2 None d)).
+  Proof. exact schedule_independent. Qed.
+
+  Theorem container_getters_refine_pure : forall (d : list Z) (dec : decoder) (s : rstate) (limit : Z),
+    all_bytes d = true -> MC.len d <= isize_max -> MC.new d = Ok dec ->
+    r_data s = d -> quiet s -> 0 <= r_pos s ->
+    let dec' := set_memory_limit dec limit in
+    erase (fst (ContainerIO.icc_profile dec' s)) = MC.icc_profile dec'
+    /\ erase (fst (ContainerIO.exif_metadata dec' s)) = MC.exif_metadata dec'
+    /\ erase (fst (ContainerIO.xmp_metadata dec' s)) = MC.xmp_metadata dec'
+    /\ erase (fst (ContainerIO.icc_profile dec s)) = MC.icc_profile dec
+    /\ erase (fst (ContainerIO.exif_metadata dec s)) = MC.exif_metadata dec
+    /\ erase (fst (ContainerIO.xmp_metadata dec s)) = MC.xmp_metadata dec.
+  Proof. exact io_refines_pure_accessors. Qed.
+
+  (* one injected failure (kind other than UnexpectedEof) at I/O call k *)
+  Theorem container_fault_surfaces : forall (sched : Z -> Z) (d : list Z) (k : Z),
+    let free := ContainerIO.new (init sched None d) in
+    let faulty := ContainerIO.new (init sched (Some k) d) in
+    (0 <= k < r_calls (snd free) -> fst faulty = IErr XFault /\ r_calls (snd faulty) = k + 1)
+    /\ (k < 0 \/ r_calls (snd free) <= k -> fst faulty = fst free /\ r_calls (snd faulty) = r_calls (snd free)).
+  Proof. exact fault_surfaces. Qed.
+
+  Theorem container_getter_fault_surfaces : forall (dec : decoder) (chunk : chunk_kind) (max_size : Z) (s : rstate) (k : Z),
+    r_fail_at s = None -> r_fail_eof s = false ->
+    let free := ContainerIO.read_chunk dec chunk max_size s in
+    let faulty := ContainerIO.read_chunk dec chunk max_size (set_fail s (Some k)) in
+    (r_calls s <= k < r_calls (snd free) -> fst faulty = IErr XFault /\ r_calls (snd faulty) = k + 1)
+    /\ (k < r_calls s \/ r_calls (snd free) <= k -> fst faulty = fst free /\ r_calls (snd faulty) = r_calls (snd free)).
+  Proof. exact fault_surfaces_read_chunk. Qed.
+
+  Theorem container_getter_state_independent : forall (dec : decoder) (chunk : chunk_kind) (max_size : Z) (s1 s2 : rstate),
+    r_data s1 = r_data s2 -> quiet s1 -> quiet s2 ->
+    fst (ContainerIO.read_chunk dec chunk max_size s1) = fst (ContainerIO.read_chunk dec chunk max_size s2).
+  Proof. exact accessors_schedule_independent. Qed.
+
+  (* the restriction on the failure kind is necessary (known behaviour of decoder.rs, replayed on the crate by c10io) *)
+  Theorem container_eof_kind_fault_is_swallowed :
+    ~ (forall (sched : Z -> Z) (d : list Z) (k : Z),
+         0 <= k < r_calls (snd (ContainerIO.new (init sched None d))) ->
+         exists e, fst (ContainerIO.new (init_kind true sched (Some k) d)) = IErr e).
+  Proof. exact fault_surfaces_eof_kind_refuted. Qed.
+
+  Example container_io_instance :
+    all_bytes anim_bytes = true /\ MC.len anim_bytes <= isize_max /\ (exists dec, MC.new anim_bytes = Ok dec).
+  Proof. exact (proj2 (proj2 (proj2 hypotheses_satisfiable))). Qed.
+
+  (* the encoder's container writer over a splitting / failing sink: same bytes for every split; a failure at a reached write call
+     gives an error with a prefix written *)
+  Theorem encoder_sink_split_independent : forall sorter data width height ct pred icc exif xmp (s : Model.Encoder.sink),
+    Model.Encoder.run_encode sorter (-1)%Z data width height ct pred icc exif xmp = (s, Ok tt) ->
+    forall wsched,
+      fst (ContainerIO_sink.write_seq wsched None ContainerIO_sink.fresh (ContainerIO_sink.encoder_buffers s)) = true
+      /\ Lib.IO.wout (snd (ContainerIO_sink.write_seq wsched None ContainerIO_sink.fresh (ContainerIO_sink.encoder_buffers s)))
+         = Model.Encoder.sink_bytes s.
+  Proof. exact ContainerIO_sink.encoder_sink_any_split. Qed.
+
+  Theorem encoder_sink_fault_surfaces : forall sorter data width height ct pred icc exif xmp (s : Model.Encoder.sink),
+    Model.Encoder.run_encode sorter (-1)%Z data width height ct pred icc exif xmp = (s, Ok tt) ->
+    forall wsched k,
+      let free := ContainerIO_sink.write_seq wsched None ContainerIO_sink.fresh (ContainerIO_sink.encoder_buffers s) in
+      let faulty := ContainerIO_sink.write_seq wsched (Some k) ContainerIO_sink.fresh (ContainerIO_sink.encoder_buffers s) in
+      (k < Lib.IO.wcalls (snd free) -> fst faulty = false)%nat
+      /\ (Lib.IO.wcalls (snd free) <= k -> faulty = free)%nat
+      /\ exists j, Lib.IO.wout (snd faulty) = firstn j (Model.Encoder.sink_bytes s).
+  Proof. exact ContainerIO_sink.encoder_sink_fault. Qed.
+End CIO.
